@@ -401,12 +401,28 @@ func checkEventTables(c *core.Ctx) {
 					plain[str] = true
 					continue
 				}
-				core.DependsOn(k, func(x ssa.Value) bool {
-					if str, ok := constString(x); ok {
-						prefixes[str] = true
-					}
-					return false
-				})
+				// constants the key is built from, here or in a key-building helper of the package
+				var scan func(v ssa.Value, depth int)
+				scan = func(v ssa.Value, depth int) {
+					core.DependsOn(v, func(x ssa.Value) bool {
+						if str, ok := constString(x); ok {
+							prefixes[str] = true
+						}
+						if call, ok := x.(*ssa.Call); ok && depth < 2 {
+							if h := call.Call.StaticCallee(); h != nil && h.Blocks != nil && core.PkgOf(h) == core.PkgOf(fn) {
+								for _, b := range h.Blocks {
+									if ret, ok := b.Instrs[len(b.Instrs)-1].(*ssa.Return); ok {
+										for _, r := range ret.Results {
+											scan(r, depth+1)
+										}
+									}
+								}
+							}
+						}
+						return false
+					})
+				}
+				scan(k, 0)
 			}
 			return
 		}
